@@ -99,6 +99,12 @@ class AccessMixin(object):
         fn = VFunc(fnode, self.src.module(f.file), f.cls, None, n)
         yield st, VBound('repo', attr, recv=V(Ty('ref', (), f.cls), base.t), func=fn, cls=f.cls)
         return
+      if node is not None and not getattr(node, '_pyvc_callee', False) and not attr.startswith('__'):
+        # a data attribute of an opaque object (endpoint.host, properties.x): an opaque value, a function of the object
+        # and the attribute name.  That the attribute exists is assumed (listed with the unit's assumptions).
+        self.assumes.append('%s: opaque object has attribute %s' % (cx.qual, attr))
+        yield st, V(ANY, z3.Function('dyn_attr', I, I, I)(base.t, z3.IntVal(self.strs.get(attr))))
+        return
     if ty.k != 'ref':
       raise Unsupported('attribute %s of %r (line %s)' % (attr, base, getattr(node, 'lineno', '?')))
     # None dereference
